@@ -63,6 +63,15 @@ def check_C13(report):
                          ap('h1', ['k2', 'k2'] if nh else [], nh, tw), {'name': 'get', 'h': 'h2', 'keys': ['k2', 'k3', 'k5']},
                          {'name': 'reopen', 'h': 'h1'}, ap('h1', ['k6'], nh, tw), {'name': 'get', 'h': 'h1', 'keys': ['k2', 'k3', 'k5', 'k6']}]
                 extra.append(({'hash': 'sha256', 'prefix': 2, 'zlevel': 1, 'target': target, 'noconform': True}, steps))
+    # a second writer that gets in between the first writer's choice of a pack and its lock (from the 'init' progress
+    # callback of the first call): it fills the chosen pack and starts the next one
+    for target in (60, 300):
+        for inner_keys in (['k5'], ['k5', 'k8'], ['k3', 'k5']):
+            outer = ap('h1', ['k6', 'k7', 'k2'], False, True)
+            outer['nested'] = ap('h2', inner_keys, False, True)
+            steps = [ap('h1', ['k1'], False, True), outer, {'name': 'get', 'h': 'h2', 'keys': ['k1', 'k2', 'k5', 'k6', 'k7']},
+                     ap('h2', ['k9' if False else 'k3'], False, True)]
+            extra.append(({'hash': 'sha256', 'prefix': 2, 'zlevel': 1, 'target': target, 'noconform': True}, steps))
     seq.run_histories(report, 'C13', n, length, ['C13'], extra_histories=extra, sim=(80 if report.tier == 'quick' else 1200, 12))
     report.set('two_writer_histories', len(extra))
     report.assumptions += ASSUME
